@@ -163,6 +163,10 @@ fn decompose(c: char) -> Option<&'static str> {
     })
 }
 
+pub fn decompose_str(s: &str) -> String {
+    s.chars().map(|c| decompose(c).map(|d| d.to_string()).unwrap_or_else(|| c.to_string())).collect()
+}
+
 /// The typing user: picks a title and types it the way people do.
 pub fn type_query(rng: &mut Rng, title: &str) -> String {
     let chars: Vec<char> = title.chars().collect();
